@@ -1515,10 +1515,35 @@ def shadowing_programs():
     return out
 
 
+def focus_programs():
+    """directed programs: an earlier clause of a multi-variable binder filters with a predicate that reads ITS focus,
+    a later clause (and the body) reads the focus of the binder itself, given by an enclosing filter over numbers"""
+    def lit(t, v):
+        return ['lit', t, v]
+    outer = ['seq', lit('integer', '3'), lit('integer', '4')]
+    strs = ['seq', lit('string', 'A'), lit('string', 'B')]
+    nums = ['seq', lit('integer', '7'), lit('integer', '8'), lit('integer', '9')]
+    filtered = [['filter', strs, ['ctx']], ['filter', nums, ['vcmp', 'gt', ['ctx'], lit('integer', '7')]],
+                ['filter', nums, ['vcmp', 'eq', ['pos'], lit('integer', '2')]]]
+    out = []
+    for f in filtered:
+        for kind in ('for', 'some', 'every'):
+            if kind == 'for':
+                inner = ['for', [['u', f], ['k', ['seq', ['ctx'], ['arith', '+', ['ctx'], lit('integer', '1')]]]], ['seq', ['var', 'k'], ['ctx']]]
+            elif kind == 'some':
+                inner = ['some', [['u', f], ['k', ['ctx']]], ['vcmp', 'ge', ['var', 'k'], lit('integer', '3')]]
+            else:
+                inner = ['every', [['u', f], ['k', ['ctx']]], ['vcmp', 'eq', ['var', 'k'], ['ctx']]]
+            # the binder is evaluated once per item of `outer`, which is its focus
+            out.append((['filter', outer, ['gcmp', '=', ['call', 'count', inner], ['call', 'count', inner]]], 'filter'))
+            out.append((['for', [['o', outer]], ['filter', ['var', 'o'], ['gcmp', '=', inner, inner]]], 'for'))
+    return out
+
+
 def run(h):
     r = h.rng
     if h.shard == 0:
-        for e, root in shadowing_programs():
+        for e, root in shadowing_programs() + focus_programs():
             for v in ('2.0', '3.1'):
                 h.case('prog', {'v': v, 'e': e, 'vars': {}, 'root': root})
     for _ in range(h.n(16000)):
